@@ -537,6 +537,40 @@ edit('backend/groth16/bn254/setup.go',[('''	for res.beta.IsZero() {
 	}
 ''')])
 save('benign-setuptoxic-loop','C01','backend/groth16/bn254/setup.go','the beta draw loop rewritten as draw-then-test')
+cb='std/math/bits/conversion_binary.go'
+m('ordguard-tobinary','C05',['ORDER-GUARD'],cb,'''omitReducednessCheck := cfg.omitModulusCheck || cfg.NbDigits < api.Compiler().FieldBitLen()''','''omitReducednessCheck := cfg.omitModulusCheck || cfg.NbDigits != api.Compiler().FieldBitLen()''',note='the comparison with p-1 is skipped for requests wider than the field, which are clamped to the full width afterwards')
+edit(cb,[('''	omitReducednessCheck := cfg.omitModulusCheck || cfg.NbDigits < api.Compiler().FieldBitLen()
+''',''''''),('''	var paddingBits int
+	if cfg.NbDigits > api.Compiler().FieldBitLen() {
+		paddingBits = cfg.NbDigits - api.Compiler().FieldBitLen()
+		cfg.NbDigits = api.Compiler().FieldBitLen()
+	}
+''','''	var paddingBits int
+	nbFieldBits := api.Compiler().FieldBitLen()
+	if cfg.NbDigits > nbFieldBits {
+		paddingBits = cfg.NbDigits - nbFieldBits
+		cfg.NbDigits = nbFieldBits
+	}
+	checkReducedness := !cfg.omitModulusCheck && !(cfg.NbDigits < nbFieldBits)
+'''),('''	if !omitReducednessCheck {''','''	if checkReducedness {''')])
+save('benign-ordguard-tobinary','C05',cb,'the modulus-check flag computed after the clamp, with the inverse polarity and a hoisted FieldBitLen')
+m('ordguard-partition','C14',['ORDER-GUARD'],'std/math/bitslice/partition.go','''	if opt.digits == 0 || opt.digits >= api.Compiler().FieldBitLen() {''','''	if opt.digits == 0 || opt.digits > api.Compiler().FieldBitLen() {''',note='a bound of exactly the field size takes the hinted path, where the recomposition only holds modulo p')
+edit('std/math/bitslice/partition.go',[('''	if opt.digits == 0 || opt.digits >= api.Compiler().FieldBitLen() {''','''	if bounded := opt.digits > 0 && opt.digits < api.Compiler().FieldBitLen(); !bounded {''')])
+save('benign-ordguard-partition','C14','std/math/bitslice/partition.go','the fallback condition of Partition rewritten through a named negation')
+m('ordguard-domain','C03',['ORDER-GUARD'],'backend/plonk/bls12-381/prove.go','''	if sizeSystem < 6 {''','''	if sizeSystem < 3 {''',note='quotient domain too small for systems of size 3 and 4')
+for cv in ['bn254','bls12-377','bls12-381','bls24-315','bls24-317','bw6-633','bw6-761']:
+  edit('backend/plonk/'+cv+'/prove.go',[('''	if sizeSystem < 6 {
+		s.domain1 = fft.NewDomain(8*sizeSystem, fft.WithoutPrecompute())
+	} else {
+		s.domain1 = fft.NewDomain(4*sizeSystem, fft.WithoutPrecompute())
+	}
+''','''	factor := uint64(4)
+	if sizeSystem <= 5 {
+		factor = 8
+	}
+	s.domain1 = fft.NewDomain(factor*sizeSystem, fft.WithoutPrecompute())
+''')])
+save('benign-ordguard-domain','C03','backend/plonk/bn254/prove.go','the quotient-domain factor chosen first, one NewDomain call (all seven curves)')
 json.dump({'comment':'selftest mutants: each patch breaks one rule instance and must be detected by the listed rule(s) of its property; produced by tools/make_selftest.py','mutants':M}, open(os.path.join(root,'selftest','mutants.json'),'w'), indent=1)
 subprocess.run(['git','-C','/repo','worktree','remove','--force',WT],capture_output=True)
 print(len(M),'mutants')
